@@ -213,19 +213,24 @@ def run_case(case):
                 continue
             for f in wc.fields:
                 i = info[f.public_name]
-                checks = [("is_optional", f.is_optional, i["optional"]),
-                          ("is_container", f.is_container, i["container"]),
-                          ("is_type_type", f.is_type_type, i["type_valued"]),
-                          ("is_builtin_type", f.is_builtin_type, i["builtin"]),
-                          ("is_enum", f.is_enum, i["enum"]),
-                          ("type_endpoint", f.type_endpoint, i["endpoint"])]
-                if i["is_class_ref"]:
-                    checks.append(("is_one_to_one_relationship", f.is_one_to_one_relationship, not i["container"]))
-                    checks.append(("is_one_to_many_relationship", f.is_one_to_many_relationship,
-                                   i["container"] and not i["optional"]))
-                if i["builtin"]:
-                    checks.append(("is_one_to_one_relationship", f.is_one_to_one_relationship, False))
-                    checks.append(("is_one_to_many_relationship", f.is_one_to_many_relationship, False))
+                try:
+                    checks = [("is_optional", f.is_optional, i["optional"]),
+                              ("is_container", f.is_container, i["container"]),
+                              ("is_type_type", f.is_type_type, i["type_valued"]),
+                              ("is_builtin_type", f.is_builtin_type, i["builtin"]),
+                              ("is_enum", f.is_enum, i["enum"]),
+                              ("type_endpoint", f.type_endpoint, i["endpoint"])]
+                    if i["is_class_ref"]:
+                        checks.append(("is_one_to_one_relationship", f.is_one_to_one_relationship, not i["container"]))
+                        checks.append(("is_one_to_many_relationship", f.is_one_to_many_relationship,
+                                       i["container"] and not i["optional"]))
+                    if i["builtin"]:
+                        checks.append(("is_one_to_one_relationship", f.is_one_to_one_relationship, False))
+                        checks.append(("is_one_to_many_relationship", f.is_one_to_many_relationship, False))
+                except Exception as e:
+                    res.failures.append(Failure("crash", f"{label}: classifying {c.__name__}.{f.public_name} raised "
+                                                         f"{type(e).__name__}: {e}"))
+                    continue
                 for name, got, exp in checks:
                     if got != exp:
                         res.failures.append(Failure("wrong-classification",
